@@ -306,8 +306,9 @@ fn eval_cohort(n: usize, p: usize, scratch: &Scratch) -> Option<Viol> {
         if x != expect_skipped || y != records {
             return Err(format!("reported skipped {x}/{y}, expected {expect_skipped}/{records}"));
         }
-        if (mass + x as f64 - records as f64).abs() > 1e-6 {
-            return Err(format!("mass {mass} + skipped {x} != {records} records"));
+        // each counted record weighs exactly one: rounding is ~1e-13 per record, a dropped tail is ~1e-7
+        if (mass + x as f64 - records as f64).abs() > 1e-9 * records as f64 {
+            return Err(format!("mass {mass:.12} + skipped {x} != {records} records"));
         }
         Ok(())
     })();
@@ -382,6 +383,36 @@ pub fn run(tier: Tier) -> i32 {
         exhaustive: true,
         extra: vec![("depth_bound".into(), J::u(extra_len))],
     });
+    // long streams: more than 65 536 records (counters must not wrap, nothing may depend on the length)
+    {
+        let n_long = tier.pick(70_000usize, 300_000usize);
+        let cycle = [Sym::Counted, Sym::MissingP0, Sym::Counted, Sym::Multiallelic, Sym::ExactlySufficient, Sym::Counted, Sym::InsufficientP1, Sym::Counted, Sym::NoGt, Sym::Counted, Sym::InsufficientP0];
+        let long: Vec<Sym> = (0..n_long).map(|i| cycle[i % cycle.len()]).collect();
+        // for strict mode: only counted records until the very end
+        let mut late: Vec<Sym> = vec![Sym::Counted; n_long];
+        late[n_long - 3] = Sym::MissingP0;
+        // a long run of consecutive records without genotypes between ordinary records
+        let mut gap: Vec<Sym> = vec![Sym::Counted; 300];
+        gap.extend(std::iter::repeat(Sym::NoGt).take(n_long - 600));
+        gap.extend(std::iter::repeat(Sym::Counted).take(300));
+        let jobs: Vec<(&Vec<Sym>, Mode)> = vec![(&long, Mode::Default), (&long, Mode::Project), (&late, Mode::Strict), (&late, Mode::Default), (&gap, Mode::Default), (&gap, Mode::Project)];
+        let res = par_map(jobs.len(), |j| eval(jobs[j].0, jobs[j].1, Pos::Unique, &scratch));
+        for v in res.into_iter().flatten() {
+            // keep the replay record small: the stream is described, not embedded
+            let (k, w, _) = v;
+            let short: String = w.chars().take(600).collect();
+            rep.violation(format!("{k}|long-stream"), short, J::obj([("kind", J::s("c10-long")), ("records", J::u(n_long))]));
+        }
+        rep.transitions += (6 * n_long) as u64;
+        rep.part(Part {
+            name: "cli: long streams".into(),
+            evaluations: 6,
+            nontrivial: 6,
+            note: format!("{n_long} records cycling through counted / missing / multiallelic / exactly sufficient / insufficient / GT-less records in default and projecting mode (every printed value, skipped count and total compared), and {n_long} counted records with one skipped record three from the end in strict and default mode; and a run of {} consecutive GT-less records between counted ones", n_long - 600),
+            exhaustive: true,
+            extra: vec![("records".into(), J::u(n_long))],
+        });
+    }
     // verbosity: what is logged must change neither the exit status nor stdout (in particular the
     // strict-mode failure must not depend on whether the skipped site would be logged)
     {
